@@ -51,8 +51,8 @@ def parse_evals(out: str):
     return res
 
 
-def model_eval(ctx, name, exprs, timeout=1200, big=False):
-    body = PRE % ("Model.SrpBig" if big else "Model.SrpCases") + "".join(f"Eval vm_compute in ({e}).\n" for e in exprs)
+def model_eval(ctx, name, exprs, timeout=1200, big=False, session=False):
+    body = PRE % ("Model.SrpBig Model.SrpSession Model.SrpSessionBig" if session else "Model.SrpBig" if big else "Model.SrpCases") + "".join(f"Eval vm_compute in ({e}).\n" for e in exprs)
     name = re.sub(r"[^A-Za-z0-9_]", "_", name)
     out = coq_eval(ctx["verif"], "C02", f"{name}_{os.getpid()}", body, timeout=timeout)
     res = parse_evals(out)
@@ -103,7 +103,8 @@ def rng_draws(a: int):
     return out
 
 
-def impl_client(code: str, a: int, salt: bytes, B_b: bytes):
+def impl_new_client(code: str, a: int):
+    """SrpClient(USER, code) whose ephemeral is a (through os.urandom when the code still draws it there)."""
     import aiohomekit.crypto.srp as srp
     c = None
     if 0 <= a < 1 << 128 and getattr(srp, "os", None) is not None:
@@ -123,6 +124,11 @@ def impl_client(code: str, a: int, salt: bytes, B_b: bytes):
             c = srp.SrpClient(USER, code)
     else:
         SEAM_USED["client:os.urandom"] += 1
+    return c
+
+
+def impl_client(code: str, a: int, salt: bytes, B_b: bytes):
+    c = impl_new_client(code, a)
     c.set_salt(bytearray(salt))
     c.set_server_public_key(bytes(B_b))
     return c
@@ -751,6 +757,353 @@ def gen_sequences(tier, seed, cases):
     return seqs
 
 
+# ---------------------------------------------------------------- live objects: several exchanges in flight in ONE process
+# (added after the round-8 seeded change C02-O, a class-level memo shared by every Srp object: no earlier stream ever had two
+# SrpClient objects alive at the same time).  A scenario is a list of objects (SrpClient through its public API; the real
+# perform_pair_setup_part2 generator, which holds its own SrpClient between M3 and M4; a SrpServer as a bystander) and a
+# schedule of (object, call) pairs.  Model: Model/SrpSession.v (hap_run; theorems srp_session_isolation,
+# srp_concurrent_exchanges).  Oracle: every object used in protocol order must show the values of ITS exchange as the
+# reference accessory computes them, whatever the other objects do in between.
+def conc_class(e):
+    if isinstance(e, (ValueError, OverflowError)):
+        return "raised:value"
+    if isinstance(e, (RuntimeError, AttributeError, TypeError)):
+        return "raised:state"
+    return "other:" + type(e).__name__
+
+
+class LivePairSetup:
+    """One perform_pair_setup_part2 generator kept alive between M3 and M4 (and on to M5/M6)."""
+
+    def __init__(self, o):
+        self.o, self.gen = o, None
+
+    def start(self):
+        import aiohomekit.crypto.srp as srp
+        from aiohomekit.protocol import perform_pair_setup_part2
+        from aiohomekit.protocol.tlv import TLV
+        o = self.o
+        a = o["a"]
+        shim = OsShim([x.to_bytes(16, "big") for x in rng_draws(a)] if 0 <= a < 1 << 128 else [])
+        use_os = bool(shim.queue) and getattr(srp, "os", None) is not None and SEAM_USED["client:generate_private_key"] == 0
+        with SEAM_LOCK, (mock.patch.object(srp, "os", shim) if use_os else
+                         mock.patch.object(srp.SrpClient, "generate_private_key", staticmethod(lambda: a))):
+            self.gen = perform_pair_setup_part2(o["code"], "00000000-0000-0000-0000-00000000000%d" % (o.get("n", 0) % 10),
+                                                bytearray(bytes.fromhex(o["salt"])), bytearray(bytes.fromhex(o["B_b"])))
+            req, _expected = next(self.gen)
+        d = dict(req)
+        return bytes(d[TLV.kTLVType_PublicKey]) + bytes(d[TLV.kTLVType_Proof])
+
+    def m4(self, M2, ref_K):
+        from aiohomekit.exceptions import AuthenticationError
+        from aiohomekit.protocol.tlv import TLV
+        try:
+            m5 = self.gen.send([(TLV.kTLVType_State, TLV.M4), (TLV.kTLVType_Proof, bytearray(M2))])
+        except AuthenticationError:
+            return "auth-error"
+        except StopIteration:
+            return "continues:no-m5"
+        enc = dict(m5[0]).get(TLV.kTLVType_EncryptedData)
+        if enc is None:
+            return "continues:m5-without-data"
+        ok, _reason, _i, _k = PS.open_m5(ref_K, bytes(enc))
+        if not ok:
+            return "continues:m5-refused-by-accessory"
+        m6_enc, acc_ltpk = PS.build_m6(ref_K)
+        try:
+            self.gen.send([(TLV.kTLVType_State, TLV.M6), (TLV.kTLVType_EncryptedData, bytearray(m6_enc))])
+            return "continues:m6-no-result"
+        except StopIteration as fin:
+            r = fin.value
+            good = isinstance(r, dict) and bytes.fromhex(r.get("AccessoryLTPK", "")) == acc_ltpk
+            return "continues:completed" if good else "continues:m6-wrong-record"
+        except Exception as e:  # noqa
+            return "continues:m6-raised:" + type(e).__name__
+
+    def close(self):
+        if self.gen is not None:
+            self.gen.close()
+
+
+def conc_exec(sc, only=None):
+    """Run the schedule on the implementation (only = index of the single object whose calls are executed).
+    -> one canonical observation per executed step."""
+    import aiohomekit.crypto.srp as srp
+    live, obs = {}, []
+    try:
+        for st in sc["schedule"]:
+            i, op = st["obj"], st["op"]
+            if only is not None and i != only:
+                continue
+            o = sc["objects"][i]
+            arg = bytes.fromhex(st["arg"]) if st.get("arg") is not None else None
+            c = live.get(i)
+            try:
+                if op == "new":
+                    live[i] = impl_new_client(o["code"], o["a"])
+                    r = "done"
+                elif op == "salt":
+                    c.set_salt(bytearray(arg))
+                    r = "done"
+                elif op == "B":
+                    c.set_server_public_key(bytes(arg))
+                    r = "done"
+                elif op == "A":
+                    r = "bytes:" + bytes(c.get_public_key_bytes()).hex()
+                elif op == "M1":
+                    r = "bytes:" + bytes(c.get_proof_bytes()).hex()
+                elif op == "K":
+                    r = "bytes:" + bytes(c.get_session_key_bytes()).hex()
+                elif op == "verify":
+                    r = "bool:%d" % (1 if c.verify_servers_proof_bytes(bytes(arg)) else 0)
+                elif op == "ps-start":
+                    live[i] = LivePairSetup(dict(o, n=i))
+                    r = "bytes:" + live[i].start().hex()
+                elif op == "ps-m4":
+                    r = c.m4(arg, bytes.fromhex(o["K"]))
+                elif op == "srv-new":
+                    shim = OsShim([bytes.fromhex(o["salt"]), o["b"].to_bytes(16, "big")])
+                    with SEAM_LOCK, mock.patch.object(srp, "os", shim):
+                        live[i] = srp.SrpServer(USER, o["code"])
+                    r = "bytes:" + bytes(live[i].get_public_key_bytes()).hex()
+                elif op == "srv-setA":
+                    c.set_client_public_key(bytes(arg))
+                    r = "done"
+                elif op == "srv-K":
+                    r = "bytes:" + bytes(c.get_session_key_bytes()).hex()
+                elif op == "srv-verify":
+                    r = "bool:%d" % (1 if c.verify_clients_proof_bytes(bytes(arg)) else 0)
+                else:
+                    raise KeyError("harness: unknown op " + op)
+            except KeyError:
+                raise
+            except Exception as e:  # noqa
+                r = conc_class(e)
+            obs.append(r)
+    finally:
+        for c in live.values():
+            if isinstance(c, LivePairSetup):
+                c.close()
+    return obs
+
+
+def conc_expected(sc):
+    """Oracle: per step the observation the property demands, or None where it does not constrain the call (an object used
+    outside protocol order or re-keyed for a second exchange; plain setters)."""
+    stage = {}
+    exp = []
+    for st in sc["schedule"]:
+        i, op, arg = st["obj"], st["op"], st.get("arg")
+        o = sc["objects"][i]
+        s = stage.get(i, 0)
+        e = None
+        if o["kind"] == "client":
+            if op == "new":
+                s = 1 if s == 0 else -1
+                e = "done"
+            elif op == "salt":
+                s = 2 if (s == 1 and arg == o["salt"]) else -1
+                e = "done" if s == 2 else None
+            elif op == "B":
+                s = 3 if (s == 2 and arg == o["B_b"]) else -1
+                e = "done" if s == 3 else None
+            elif op == "A" and s != 0:
+                e = "bytes:" + o["A_b"]          # the public value depends on the ephemeral only
+            elif s == 3:
+                e = {"M1": "bytes:" + o["M1"], "K": "bytes:" + o["K"]}.get(op) or ("bool:%d" % (1 if arg == o["M2"] else 0))
+        elif o["kind"] == "pairsetup":
+            if op == "ps-start":
+                e = "bytes:" + o["A_b"] + o["M1"]
+            elif op == "ps-m4":
+                e = "continues:completed" if arg == o["M2"] else "auth-error"
+        elif o["kind"] == "server":
+            if op == "srv-new":
+                e = "bytes:" + o["B_b"]
+            elif op == "srv-setA":
+                e = "done"
+            elif op == "srv-K":
+                e = "bytes:" + o["srv_K"]
+            elif op == "srv-verify":
+                e = "bool:%d" % (1 if arg == o["srv_M1"] else 0)
+        stage[i] = s
+        exp.append(e)
+    return exp
+
+
+def conc_model_expr(sc):
+    """The schedule restricted to the SrpClient objects, as a Gallina term for session_case (the other kinds are other
+    objects; srp_session_isolation says they cannot matter)."""
+    evs = []
+    for st in sc["schedule"]:
+        o = sc["objects"][st["obj"]]
+        if o["kind"] != "client":
+            continue
+        op, arg = st["op"], st.get("arg")
+        b = (lambda h: f"(bs {lit(bytes.fromhex(h))})")
+        ev = {"new": lambda: f"ENew (bs {lit(USER.encode())}) (bs {lit(o['code'].encode())}) {o['a']}%Z",
+              "salt": lambda: f"ESalt {b(arg)}", "B": lambda: f"EB {b(arg)}", "A": lambda: "EGetA", "M1": lambda: "EGetM1",
+              "K": lambda: "EGetK", "verify": lambda: f"EVerify {b(arg)}"}[op]()
+        evs.append(f"({st['obj']}%nat, {ev})")
+    return "session_case [" + "; ".join(evs) + "]"
+
+
+def conc_model_decode(rows):
+    out = []
+    for row in rows:
+        tag, rest = row[0], row[1:]
+        out.append({1000: "done", 1003: "raised:value", 1004: "raised:state"}.get(tag) or
+                   ("bytes:" + bytes(rest).hex() if tag == 1001 else "bool:%d" % rest[0] if tag == 1002 else f"?{tag}"))
+    return out
+
+
+def conc_object(kind, ex, n=0):
+    """Object description from an exchange (code, salt, a, b): the reference accessory's and controller's values."""
+    code, salt, a, b = ex["code"], bytes.fromhex(ex["salt"]), ex["a"], ex["b"]
+    acc = R.Accessory(code.encode(), salt, b)
+    want = R.client_values(code.encode(), salt, a, acc.B_b)
+    o = dict(kind=kind, code=code, salt=ex["salt"], a=a, b=b, B_b=acc.B_b.hex(), A_b=want["A_b"].hex(), M1=want["M1"].hex(),
+             K=want["K"].hex(), M2=want["M2"].hex(), exchange=ex.get("kind", "?"))
+    if kind == "server":          # the accessory-side class of the same module, fed this exchange's client values
+        v = acc.receive(want["A_b"], want["M1"])
+        o.update(srv_K=v["K"].hex(), srv_M1=v["M1_expected"].hex())
+    return o
+
+
+def conc_phases(i, o, others, order):
+    """(what the object does before its M3 is out, what it does when M4 arrives) as schedule steps."""
+    def st(op, arg=None):
+        return dict(obj=i, op=op, arg=arg)
+    flip = bytearray(bytes.fromhex(o["M2"]))
+    flip[17] ^= 0x04
+    cross = [x["M2"] for x in others if x["M2"] != o["M2"]][:1]
+    if o["kind"] == "client":
+        p1 = [st("new"), st("salt", o["salt"]), st("B", o["B_b"])]
+        g1 = {"m1-first": [st("A"), st("M1")], "k-first": [st("K"), st("A")], "verify-first": []}[order]
+        p2 = [st("verify", o["M2"]), st("K"), st("M1"), st("verify", flip.hex())] + [st("verify", m) for m in cross] + \
+             [st("A"), st("verify", o["M2"])]
+        return p1 + g1, p2
+    if o["kind"] == "pairsetup":
+        return [st("ps-start")], [st("ps-m4", o["M2"] if order != "verify-first" else flip.hex())]
+    return [st("srv-new"), st("srv-setA", o["A_b"])], [st("srv-K"), st("srv-verify", o["srv_M1"]), st("srv-verify", o["M1"][:-2] + "00")]
+
+
+def conc_schedule(template, phases, r):
+    n = len(phases)
+    if template == "m3-then-m4":            # every exchange sends M3, then the M4 answers arrive in the same order
+        return [s for p1, _ in phases for s in p1] + [s for _, p2 in phases for s in p2]
+    if template == "reverse-finish":        # ... or in the opposite order
+        return [s for p1, _ in phases for s in p1] + [s for _, p2 in reversed(phases) for s in p2]
+    if template == "nested":                # the first exchange waits for M4 while the others run from start to end
+        return phases[0][0] + [s for p1, p2 in phases[1:] for s in p1 + p2] + phases[0][1]
+    lists = [list(p1 + p2) for p1, p2 in phases]
+    out = []
+    if template == "lockstep":              # call by call, round robin
+        while any(lists):
+            for l in lists:
+                if l:
+                    out.append(l.pop(0))
+        return out
+    while any(lists):                       # "random": any interleaving that keeps every object's own order
+        l = r.choice([l for l in lists if l])
+        out.append(l.pop(0))
+    return out
+
+
+def gen_concurrent(tier, seed, cases):
+    r = rng(seed, "c02conc")
+    pool = [c for c in cases if c.get("B_b") is None and c["code"] == c["server_code"] and len(c["salt"]) == 32
+            and 0 <= c["a"] < 1 << 128 and not c.get("oracle_only")]
+    if len(pool) < 2:
+        return []
+    ex = lambda k: pool[k % len(pool)]
+
+    def other_ab(c, k):          # the same accessory code and salt, other ephemerals: a second controller / a retry in flight
+        return dict(c, a=(c["a"] * 31 + 0x1F2E3D4C5B6A7988 + k) % (1 << 128), b=(c["b"] * 17 + 0x0102030405060708 + k) % (1 << 128),
+                    kind="same-code-and-salt")
+    plans = [  # (name, [(kind, exchange)], template, getter order, model?)
+        ("two-clients", [("client", ex(0)), ("client", ex(1))], "m3-then-m4", "m1-first", True),
+        ("two-clients-k-first", [("client", ex(2)), ("client", ex(3))], "lockstep", "k-first", True),
+        ("client+pairsetup+srpserver", [("client", ex(4)), ("pairsetup", ex(5)), ("server", ex(0))], "nested", "m1-first", False),
+        ("three-pairsetups", [("pairsetup", ex(0)), ("pairsetup", ex(5)), ("pairsetup", ex(1))], "reverse-finish", "m1-first", False),
+        ("same-accessory-twice", [("client", ex(0)), ("client", other_ab(ex(0), 1)), ("pairsetup", ex(3))], "reverse-finish",
+         "verify-first", False),
+    ]
+    if tier != "quick":
+        kinds = ["client", "client", "pairsetup", "client", "server"]
+        templates = ["m3-then-m4", "reverse-finish", "nested", "lockstep", "random", "random"]
+        orders = ["m1-first", "k-first", "verify-first"]
+        for k in range(20):
+            n = 2 + k % 4
+            objs = [(kinds[(k + j) % len(kinds)] if j else "client", ex(r.randrange(len(pool))) if (k + j) % 5 else other_ab(ex(k), j))
+                    for j in range(n)]
+            plans.append((f"mix-{k}", objs, templates[k % len(templates)], orders[k % len(orders)], k % 2 == 0))
+    out = []
+    for name, objs, template, order, with_model in plans:
+        objects = [conc_object(kind, c, n) for n, (kind, c) in enumerate(objs)]
+        phases = [conc_phases(i, o, [x for j, x in enumerate(objects) if j != i and x["kind"] != "server"], order)
+                  for i, o in enumerate(objects)]
+        sched = conc_schedule(template, phases, r)
+        if with_model and name != "two-clients":
+            # afterwards the first client object is re-keyed with the salt and accessory key of the second exchange: outside
+            # what C02 constrains (the controller never does it), compared with the model only (Srp._session_key survives)
+            o2 = objects[1]
+            sched = sched + [dict(obj=0, op="salt", arg=o2["salt"]), dict(obj=0, op="B", arg=o2["B_b"]), dict(obj=0, op="K", arg=None),
+                             dict(obj=0, op="M1", arg=None), dict(obj=1, op="K", arg=None), dict(obj=2, op="A", arg=None)]
+            objects = objects + ([dict(kind="client", code="-", salt="", a=0, b=0, B_b="", A_b="", M1="", K="", M2="", exchange="never-created")]
+                                 if len(objects) == 2 else [])
+        out.append(dict(name=name, template=template, getter_order=order, model=with_model, objects=objects, schedule=sched))
+    return out
+
+
+def conc_run(sc):
+    """Implementation + oracle for one scenario (serial, in this process)."""
+    got = conc_exec(sc)
+    exp = conc_expected(sc)
+    bad = [k for k, (g, e) in enumerate(zip(got, exp)) if e is not None and g != e]
+    solo = None
+    if bad:
+        i = sc["schedule"][bad[0]]["obj"]
+        mine = [k for k, st in enumerate(sc["schedule"]) if st["obj"] == i]
+        alone = conc_exec(sc, only=i)
+        solo = all(exp[k] is None or alone[n] == exp[k] for n, k in enumerate(mine))
+    return dict(sc=sc, got=got, exp=exp, bad=bad, solo_conformant=solo)
+
+
+def conc_judge(C, mrows):
+    sc, got, exp, bad = C["sc"], C["got"], C["exp"], C["bad"]
+    viol = []
+    payload = dict(concurrent=sc, observed=got, expected=exp)
+    if bad:
+        k = bad[0]
+        st = sc["schedule"][k]
+        o = sc["objects"][st["obj"]]
+        alive = sorted({s["obj"] for s in sc["schedule"][:k]})
+        what = (f"scenario '{sc['name']}' ({len(sc['objects'])} objects, {sc['template']}): step {k} = {st['op']} on object {st['obj']} "
+                f"({o['kind']}, exchange {o['exchange']}) returned {got[k][:40]}... where its own exchange demands {exp[k][:40]}...; "
+                f"objects alive: {alive}")
+        if C["solo_conformant"]:
+            viol.append(violation("concurrent:shared-state", "exchanges in flight at the same time influence each other (the calls of this "
+                                  "object alone, in the same process, give the conformant values): " + what, True,
+                                  failing_step=k, failing_steps=bad[:12], **payload))
+        else:
+            viol.append(violation("concurrent:values", what + " (the object's calls alone fail too)", True, failing_step=k,
+                                  failing_steps=bad[:12], **payload))
+    reuse_stale = 0
+    if mrows is not None:
+        model = conc_model_decode(mrows)
+        idx = [k for k, st in enumerate(sc["schedule"]) if sc["objects"][st["obj"]]["kind"] == "client"]
+        diff = [k for k, m in zip(idx, model) if got[k] != m] if len(idx) == len(model) else idx[:1]
+        if diff and not bad:
+            viol.append(violation("concurrent:model-mismatch", f"scenario '{sc['name']}': implementation and Model/SrpSession.v differ at steps "
+                                  f"{diff[:8]}; the independent accessory found no property failure", False, model=model, **payload,
+                                  broken="correspondence Model/SrpSession.v <-> aiohomekit/crypto/srp.py (object state)"))
+        for k, m in zip(idx, model):
+            st = sc["schedule"][k]
+            if exp[k] is None and st["op"] == "K" and got[k] == m and got[k] == "bytes:" + sc["objects"][st["obj"]]["K"]:
+                reuse_stale += 1
+    return dict(viol=viol, reuse_stale=reuse_stale)
+
+
 # ---------------------------------------------------------------- SrpServer stream (extension)
 def zero_key_forged(salt: bytes, A_hashed: bytes, B_b: bytes) -> bytes:
     """The proof anybody can compute for A = 0 (mod N): S = 0, K = H(PAD(0)); no setup code involved."""
@@ -915,9 +1268,12 @@ def run(ctx):
             data = bytes((r.getrandbits(8) if j else r.choice([0, 0, 1, 255])) for j in range(dl))
             pl_cases.append((data, ln))
     seqs = None
+    conc_scs = None
     if ctx.get("replay"):
         rp = json.load(open(ctx["replay"]))
-        if isinstance(rp.get("sequence"), dict) and rp["sequence"].get("steps_so_far"):
+        if isinstance(rp.get("concurrent"), dict) and rp["concurrent"].get("schedule"):
+            cases, seqs, conc_scs = [], [], [dict(rp["concurrent"], model=True)]
+        elif isinstance(rp.get("sequence"), dict) and rp["sequence"].get("steps_so_far"):
             cases, seqs = [], [dict(name=rp["sequence"].get("name", "replay"), steps=rp["sequence"]["steps_so_far"])]
         elif isinstance(rp.get("case"), dict) and "salt" in rp["case"]:
             cases, seqs = [rp["case"]], []
@@ -927,6 +1283,8 @@ def run(ctx):
         cases = gen_exchanges(tier, seed)
     if seqs is None:
         seqs = gen_sequences(tier, seed, cases)
+    if conc_scs is None:
+        conc_scs = gen_concurrent(tier, seed, cases) if not ctx.get("replay") else []
     t_gen = time.time()
 
     # ---- implementation + independent accessory, serially and in stream order (one process: the sequences are real histories)
@@ -934,6 +1292,7 @@ def run(ctx):
     PHASES[0] = 0
     plain_P = [impl_phase(c) for c in cases]
     seq_P = [[impl_phase(st) for st in sq["steps"]] for sq in seqs]
+    conc_C = [conc_run(sc) for sc in conc_scs]          # several objects alive at the same time, calls interleaved
     srv_cases = gen_srpserver(tier, cases) if not ctx.get("replay") else []
     probe = impl_srpserver("000-00-000", bytes(16), 5, True, R.PAD(0),
                            [zero_key_forged(bytes(16), R.PAD(0), R.Accessory(b"000-00-000", bytes(16), 5).B_b)])
@@ -959,6 +1318,8 @@ def run(ctx):
     n_ride = min(len(srv_e), len(exprs_list)) if tier == "quick" else 0
     jobs = [(lambda n=n, e=e: model_eval(ctx, f"ex_{n}", e + (srv_e[n] if n < n_ride else []), big=True)) for n, e in enumerate(exprs_list)]
     jobs += [(lambda n=n: model_eval(ctx, f"srv_{n}", srv_e[n], big=True)) for n in range(n_ride, len(srv_e))]
+    conc_jobs = [n for n, C in enumerate(conc_C) if C["sc"].get("model")]
+    jobs += [(lambda n=n: model_eval(ctx, f"conc_{n}", [conc_model_expr(conc_C[n]["sc"])], session=True)[0]) for n in conc_jobs]
     plainz = []
     if tier != "quick" and plain_P:
         # axiom-free cross-check of the BigN evaluator: A_b through powm on plain Z (about 1 s per 3072-bit modular
@@ -982,6 +1343,8 @@ def run(ctx):
     o = len(exprs_list)
     srv_out = [out[n][len(exprs_list[n]):] for n in range(n_ride)] + out[o:o + len(srv_Q) - n_ride]
     o += len(srv_Q) - n_ride
+    conc_out = dict(zip(conc_jobs, out[o:o + len(conc_jobs)]))
+    o += len(conc_jobs)
     plainz_out = out[o:o + len(plainz)]
     o += len(plainz)
     sha_model = [d for part in out[o:o + len(sha_parts)] for d in part]
@@ -1019,6 +1382,29 @@ def run(ctx):
         if not ok:
             viols.append(violation("plainz:public-key", "A_b evaluated with powm on plain Z (no BigN, no Uint63 axioms) differs from the "
                                    "implementation", False, a=str(z["a"]), model=bytes(mr).hex(), impl=z["A_b"].hex()))
+
+    # ---- live objects (several exchanges in flight)
+    conc_viols, reuse_stale = [], 0
+    for n, C in enumerate(conc_C):
+        j = conc_judge(C, conc_out.get(n))
+        conc_viols += j["viol"]
+        reuse_stale += j["reuse_stale"]
+        sc = C["sc"]
+        kinds = "+".join(sorted(o["kind"] for o in sc["objects"] if o.get("exchange") != "never-created"))
+        cov.case("conc" + json.dumps(sc, sort_keys=True), True, stream="concurrent", concurrent_objects=len(sc["objects"]),
+                 concurrent_template=sc["template"], concurrent_kinds=kinds, concurrent_getter_order=sc["getter_order"],
+                 concurrent_model="model+oracle" if n in conc_out else "oracle-only", concurrent_calls=len(sc["schedule"]) // 8 * 8,
+                 sample=dict(stream="concurrent", scenario=sc["name"], template=sc["template"], objects=kinds,
+                             calls=[f"{st['obj']}.{st['op']}" for st in sc["schedule"]], observed=[g[:22] for g in C["got"]])
+                 if n == 0 else None)
+    cov.extra["concurrent"] = dict(
+        scenarios=len(conc_C), calls=sum(len(C["got"]) for C in conc_C), model_evaluated=len(conc_out),
+        constrained_calls=sum(1 for C in conc_C for e in C["exp"] if e is not None),
+        max_objects_alive=max([len(C["sc"]["objects"]) for C in conc_C] or [0]),
+        reuse_stale_session_key_observed=reuse_stale,
+        note="an SrpClient re-keyed (set_salt / set_server_public_key) after its session key was computed keeps answering the old key "
+             "(Srp._session_key is never invalidated; theorem srpclient_reuse_stale_key_observation); the controller creates one "
+             "client per pair-setup, so this is outside C02's statement and only compared with the model")
 
     # ---- session sequences
     seq_viols = []           # reported after the single-exchange violations (the runner keeps the first per key)
@@ -1134,6 +1520,7 @@ def run(ctx):
 
     viols += srv_viols
     viols += seq_viols
+    viols += conc_viols
     cov.extra["informational_skip_leading_zero_convention"] = dict(
         note="exchanges on which an accessory hashing A, B, S without leading zero bytes in M1/K (not the convention DESIGN.md fixes) "
              "would judge the controller's proof differently; not counted as violations",
